@@ -143,6 +143,9 @@ func (ctx *parseContext) expandMacros(node *Node) error {
 		}
 
 		newArgs = append(newArgs, replacement...)
+		if len(newArgs) > maxExpandedArgs {
+			return ctx.Err("too many arguments after macro expansion")
+		}
 	}
 	node.Args = newArgs
 
@@ -156,6 +159,14 @@ func (ctx *parseContext) expandMacros(node *Node) error {
 
 	return nil
 }
+
+// Limits on the result of the macro expansion. A macro can be defined using
+// other macros, the size of its value can double with each definition this
+// way; without a limit a few dozen of lines exhaust the memory.
+const (
+	maxExpandedArgs   = 65536
+	maxExpandedArgLen = 1024 * 1024
+)
 
 var macroRe = regexp.MustCompile(`\$\(([^\$]+)\)`)
 
@@ -175,6 +186,9 @@ func (ctx *parseContext) expandSingleValueMacro(arg string) (string, error) {
 		}
 
 		arg = strings.Replace(arg, "$("+macroName+")", value, -1)
+		if len(arg) > maxExpandedArgLen {
+			return "", ctx.Err("too long argument after macro expansion")
+		}
 	}
 
 	return arg, nil
